@@ -964,9 +964,70 @@ fn mode_drop_matrix(r: &mut Runner) {
 }
 
 /// Fault enumeration for C11 / C16: all assignments of outcomes to n queued metrics.
+/// A queuing sink built, used and dropped by a destructor that runs while its thread unwinds from an unrelated panic
+/// (an application's scope guard reporting "aborted" metrics): it works like any other, and its panic count speaks of the
+/// wrapped sink's panics only - there were none.
+fn built_while_unwinding(r: &mut Runner) {
+    struct Guard {
+        sh: Arc<Shared>,
+        out: Arc<Mutex<Option<(u64, u64, u64, usize)>>>,
+        cap: Option<usize>,
+    }
+    impl Drop for Guard {
+        fn drop(&mut self) {
+            let q = match self.cap {
+                Some(c) => QueuingMetricSink::with_capacity(GatedSink { sh: self.sh.clone() }, c),
+                None => QueuingMetricSink::from(GatedSink { sh: self.sh.clone() }),
+            };
+            let mut ok = 0usize;
+            for k in 0..3 {
+                if q.emit(&format!("unwinding.n{}|ok", k)).is_ok() {
+                    ok += 1;
+                }
+            }
+            let _ = await_log(&self.sh, |st| st.log.iter().filter(|e| matches!(e, Ev::Exit { .. })).count() >= ok);
+            *self.out.lock().unwrap() = Some((q.panics(), q.submitted(), q.drained(), ok));
+        }
+    }
+    for cap in [None, Some(8usize)] {
+        let sh = Shared::new(false);
+        set_current(Some(sh.clone()));
+        let out = Arc::new(Mutex::new(None));
+        let (sh2, out2) = (sh.clone(), out.clone());
+        let _ = std::thread::spawn(move || {
+            let _reg = procmon::Registration::new();
+            let _g = Guard { sh: sh2, out: out2, cap };
+            panic!("scripted-panic: unwinding with a guard that reports through a queuing sink");
+        })
+        .join();
+        let got = *out.lock().unwrap();
+        let _ = await_log(&sh, |st| st.log.iter().any(|e| matches!(e, Ev::SinkDrop { .. })));
+        let _ = await_no_library_thread();
+        set_current(None);
+        let mut rep = r.rep();
+        rep.eval();
+        rep.obs("queuing_sinks_built_and_used_by_a_destructor_during_unwinding", 1);
+        rep.distinct(&format!("built-while-unwinding|{:?}", cap));
+        match got {
+            Some((p, s, d, ok)) => {
+                if r.prop == "C11" && p != 0 {
+                    rep.violation(Violation { property: "C11".into(), rule: "R6".into(), class: "panic-count".into(), detail: format!("[queuing sink built while its thread was unwinding, capacity {:?}] panics() = {} but the wrapped sink never panicked ({} metrics accepted and handed over)", cap, p, ok), replay_args: r.args.to_vec_with(&[]), trace: Json::Null });
+                }
+                if r.prop == "C15" && (s != ok as u64 || d != ok as u64) {
+                    rep.violation(Violation { property: "C15".into(), rule: "R7".into(), class: "submitted-wrong".into(), detail: format!("[queuing sink built while its thread was unwinding] submitted={} drained={} but {} emits returned Ok and were handed over", s, d, ok), replay_args: r.args.to_vec_with(&[]), trace: Json::Null });
+                }
+            }
+            None => rep.inconclusive("built-while-unwinding: the guard's destructor did not finish"),
+        }
+    }
+}
+
 fn mode_outcomes(r: &mut Runner) {
     let shard = r.args.u64("shard", 0);
     let shards = r.args.u64("shards", 1);
+    if shard == 0 {
+        built_while_unwinding(r);
+    }
     let n_max = r.args.usize("n", 5);
     let alphabet: Vec<Out> = match r.args.str("alphabet", "oep").as_str() {
         "oe" => vec![Out::Ok, Out::Err(2), Out::Err(3)],
